@@ -176,6 +176,9 @@ func (c *Case) SimWith(d simrt.Drawer, setup func(rt *simrt.RT)) *SimResult {
 	if rt.Adhoc > 0 {
 		c.res.Adhoc += rt.Adhoc
 	}
+	if rt.Foreign > 0 {
+		c.probes["foreign-goroutine-hook-calls"] += int64(rt.Foreign)
+	}
 	if c.Replaying {
 		c.trace = rt.Trace
 	}
